@@ -195,3 +195,30 @@ def as_np_ints(kw, on):
     if not on:
         return kw
     return {k: (np.int64(v) if isinstance(v, int) and not isinstance(v, bool) else v) for k, v in kw.items()}
+
+
+def open_relative(paths, reader_cls, data_dir, decoy=True):
+    """Open a reader by RELATIVE file names (working directory = the data directory) and then move the process into
+    a sibling directory that holds same-named decoy files with different contents.  A reader is tied to the files it
+    was opened on, not to whatever the same names mean later; the worker resets the directory before the next case."""
+    import os
+    import shutil
+
+    names = [os.path.basename(p) for p in paths]
+    dec = os.path.join(data_dir, "decoy")
+    os.makedirs(dec, exist_ok=True)
+    if decoy:
+        for p, nm in zip(paths, names):
+            with open(p, "rb") as fp:
+                raw = bytearray(fp.read())
+            # same header, every data byte inverted; same length so that only the contents differ
+            from vlib import sigfile as _sf
+
+            hl = _sf.parse_header_bytes(bytes(raw))[1]
+            body = np.frombuffer(bytes(raw[hl:]), dtype=np.uint8) ^ np.uint8(0xFF)
+            with open(os.path.join(dec, nm), "wb") as fp:
+                fp.write(bytes(raw[:hl]) + body.tobytes())
+    os.chdir(data_dir)
+    rd = reader_cls(names if len(names) > 1 else names[0])
+    os.chdir(dec)
+    return rd
